@@ -396,6 +396,12 @@ func (n *CandidateNode) UpdateFrom(other *CandidateNode, prefs assignPreferences
 		log.Debugf("UpdateFrom, no need to update from myself.")
 		return
 	}
+	if other.Kind == AliasNode && other.Alias == n {
+		// an alias of this very node (a: &x {..}, b: *x; .a = .b): the node already is what the alias stands
+		// for. Turning it into an alias of itself would make every later read of it recurse for ever.
+		log.Debugf("UpdateFrom, an alias of myself: nothing to update.")
+		return
+	}
 	// if this is an empty map or empty array, use the style of other node.
 	if (n.Kind != ScalarNode && len(n.Content) == 0) ||
 		// if the tag has changed (e.g. from str to bool)
